@@ -542,7 +542,7 @@ pub struct Budget {
 
 impl Budget {
     pub const FUZZ: Budget = Budget { fuel: 30_000, depth: 2_000, alloc: 200_000 };
-    pub const GENEROUS: Budget = Budget { fuel: 5_000_000, depth: 20_000, alloc: 1_000_000 };
+    pub const GENEROUS: Budget = Budget { fuel: 5_000_000, depth: 3_000, alloc: 1_000_000 };
 }
 
 pub struct Session {
